@@ -100,7 +100,7 @@ def run(tier, seed, t0):
         mc = [f.result() for f in mcf]
     finally:
         ex.shutdown(wait=True)
-    v = vlib.Verdict(PROP, own_kinds=("backlog-midframe", "pubflags-pressure"))
+    v = vlib.Verdict(PROP, own_kinds=("backlog-midframe", "pubflags-pressure", "backlog-closethrottled"))
     v.absorb(bad)
     # stalls with heartbeats negotiated (a stall longer than the interval must not end the connection: the
     # server keeps sending nothing but the client's own tx timer fires with data queued), and publishers that
@@ -110,6 +110,8 @@ def run(tier, seed, t0):
     hs = [x for x in scenarios.generate("midframe_close", 100 if tier == "quick" else 600, seed)
           if x["cfg"].get("heartbeat")]
     hs += scenarios.generate("pressure", 40 if tier == "quick" else 600, seed)
+    # the connection is closed while the I/O thread is not listening to the channels: what they accepted goes out first
+    hs += scenarios.generate("close_throttled", 40 if tier == "quick" else 600, seed)
     hfiles, hsumm = vlib.run_sessions(PROP + "-sess", hs, tier, hang_ms=hang)
     hconsumed, hbad = vlib.validate_traces("ConnTrace", "ConnTrace.cfg", hfiles, timeout=1800, xmx="4g")
     v.absorb(hbad)
